@@ -38,7 +38,7 @@ CHECKS = {
  'C20': dict(
    engine='kani', category='proof', design_ref='DESIGN.md §2 C20',
    technique='contract harnesses on the real future write/read operations and typed wrappers (Kani/CBMC), complete enumeration of (operation, arrival, code)',
-   text='Op tables for RawFutureWriter/RawFutureWrite/RawFutureReader/RawFutureRead over the complete finite code set and every way an answer arrives (immediate, delivered, cancel, drop in flight): value lowered once, lifted back or released exactly once, outcome mapping one-to-one, no drop-writable while a write is pending. Typed FutureWriter/FutureWrite: default value handed to write_and_forget before any drop-writable in every drop/cancel path.',
+   text='Op tables for RawFutureWriter/RawFutureWrite/RawFutureReader/RawFutureRead over the complete finite code set and every way an answer arrives (immediate, delivered, cancel, drop in flight): value lowered once, lifted back or released exactly once, outcome mapping one-to-one, no drop-writable while a write is pending; a completion that was already delivered to the task when the operation is cancelled is the outcome (the host is not asked to cancel a finished write / read, the value is neither lost nor written twice). Typed FutureWriter/FutureWrite: default value handed to write_and_forget before any drop-writable in every drop/cancel path.',
    note='write_and_forget itself (self-waking Arc cycle) is replaced by a recording stub in the quick tier. Trusted: mock FutureOps/vtable, mock host.'),
  'C21': dict(
    engine='kani', category='proof', design_ref='DESIGN.md §2 C21',
@@ -73,13 +73,13 @@ CHECKS['C07'] = dict(
 CHECKS['C22'] = dict(
    engine='kani', category='other', design_ref='DESIGN.md §9.7 C22',
    technique='contract harnesses on the real export executor (Kani/CBMC, in-crate): exactly one executor step (TaskState::callback, start_task, callback, drop, waitable_register/unregister) per harness from directly constructed pre-states, symbolic event codes',
-   text='BOUNDED contract checking, not a proof (level "other"): at most one registered waitable, scripted Rust work, one step per harness over a sampled set of abstract states. Per step: EXIT exactly when no Rust work and no registered waitable remain; WAIT on the task\'s own waitable set while something is pending and not woken; YIELD when woken during polling (after polling the set and delivering what it reports); an event is delivered to its callback exactly once, after the waitable has left every set, with the host\'s code, and the work is polled again; cancellation exits without polling; the state slot is empty while a callback runs, holds the same state afterwards unless EXIT, and the task with its destructors is released exactly once on exit or cancellation with the task installed; CallbackCode encoding for all set ids; register/unregister keep the task map and the host set in step; a task handle taken and given back through the C-ABI vtable (clone / drop) is exactly one strong reference more and less, and the set is dropped once when everything is gone; block_on returns for a ready future, after one wait, and for a future that only yields without ever registering a waitable.',
+   text='BOUNDED contract checking, not a proof (level "other"): at most two registered waitables, scripted Rust work, one step per harness over a sampled set of abstract states. Per step: EXIT exactly when no Rust work and no registered waitable remain; WAIT on the task\'s own waitable set while something is pending and not woken; YIELD when woken during polling (after polling the set and delivering what it reports); an event is delivered to its callback exactly once, after the waitable has left every set, with the host\'s code, and the work is polled again; cancellation exits without polling; the state slot is empty while a callback runs, holds the same state afterwards unless EXIT, and the task with its destructors is released exactly once on exit or cancellation with the task installed; CallbackCode encoding for all set ids; register/unregister keep the task map and the host set in step; a task handle taken and given back through the C-ABI vtable (clone / drop) is exactly one strong reference more and less, and the set is dropped once when everything is gone; block_on returns for a ready future, after one wait, and for a future that only yields without ever registering a waitable.',
    note='BOUNDED: <= 1 waitable, two-slot map model kept in a static under the model checker (BTreeMap trusted), one task per harness. block_on is covered for a ready future, for one wait and for a yield-only future (two loop iterations each; the last one exposed a panic in the unchanged code, repaired as fix: 1781768); a three-step history runs in the thorough tier. Not covered: spawned work (async-spawn), TaskCancelOnDrop, longer histories beyond the inductive reading of the single steps. Trusted: mock host.')
 
 CHECKS['C05'] = dict(
    engine='kani', category='other', design_ref='DESIGN.md §9.9 C05/C06',
    technique='contract harnesses (Kani/CBMC) on the bindings the real Rust generator produces for a value probe world, the harness acting as the host at the core-ABI boundary with hand-written Canonical-ABI encodings (flat parameters, joined variant slots, return-area layout)',
-   text='PARTIAL and BOUNDED (level "other"): for ONE probe world, export direction. Every generated export trampoline hands the user function exactly the value the host lowered and stores exactly the value the user returned at its canonical offsets: record (incl. one with every scalar kind: bool, char, s8, s16, s64, f32, f64), tuple, option (also nested), result (with both, only an ok, only an error payload type), flags (3 and 32 members), enum and the numeric cases of a variant with a joined 64-bit-or-pointer slot over their full domains; list<string> returned by an import; a variant { f32, u64, f64 } (f32 in a slot widened to i64) over every bit pattern, through an export and through an import; string, list<u8>, list<u32>, list<tuple>, the variant\'s string case, a record with string and list fields, result<string, u32>, list<string>, list<record { u64, string }> (element size with a byte part and a pointer part) and map<string, u32> (second probe world, generated with --map-type) for bounded lengths.',
+   text='PARTIAL and BOUNDED (level "other"): two probe worlds, mostly the export direction (four import functions). Every generated export trampoline hands the user function exactly the value the host lowered and stores exactly the value the user returned at its canonical offsets: record (incl. one with every scalar kind: bool, char, s8, s16, s64, f32, f64), tuple, option (also nested), result (with both, only an ok, only an error payload type), flags (3 and 32 members), enum and the numeric cases of a variant with a joined 64-bit-or-pointer slot over their full domains; list<string> returned by an import; a variant { f32, u64, f64 } (f32 in a slot widened to i64) over every bit pattern, through an export and through an import; string, list<u8>, list<u32>, list<tuple>, the variant\'s string case, a record with string and list fields, result<string, u32>, list<string>, list<record { u64, string }> (element size with a byte part and a pointer part) and map<string, u32> (second probe world, generated with --map-type) for bounded lengths.',
    note='BOUNDED: list/string lengths 0..=2 (lists of strings / records: list length fixed per obligation at 0, 1 or 2, element strings <= 1 byte), ASCII only; one probe world; one import (the f32 variant), otherwise export direction; async, resources (C07) not driven. The host side is hand-written in the harness from CanonicalABI.md with the 64-bit target\'s pointer size (the generator emits size_of::<*const u8>() offsets, so wasm32 is the same text with P = 4). std UTF-8 validation is a trusted stub.')
 CHECKS['C06'] = dict(
    engine='kani', category='other', design_ref='DESIGN.md §9.9 C05/C06',
@@ -107,7 +107,7 @@ CHECKS['C10'] = dict(
 CHECKS['C11'] = dict(
    engine='cbmc', category='other', design_ref='DESIGN.md §9.14 C10/C11',
    technique='CBMC (wasm32 data model, --pointer-check --bounds-check --memory-leak-check) on the generated C of two probe worlds (values; resources, generated with and without --autodrop-borrows): the allocator model decides leaks, double frees, use after free and out-of-bounds accesses, the harness as host records every resource.drop / new / rep; plus a comparison of every __export_name__ and every __import_module__/__import_name__ pair with an independent spec of the component model\'s core names',
-   text='PARTIAL and BOUNDED (level "other"): for string, list<u32>, list<tuple>, a variant with a string case and list<string> parameters and results of one probe world: after the export wrapper, the user function (which frees its arguments with the generated *_free helpers) and the generated post-return, nothing is leaked, nothing is freed twice, nothing is used after free or accessed out of bounds; post-return of the numeric variant cases frees nothing; the arguments of an import are passed without a copy, left untouched and remain the caller\'s to free. Resources (second probe world, default options and --autodrop-borrows yes): a borrow of an imported resource lent to an export - plain, in an option, in a variant whose other case is an integer in the same flat slot - is dropped by the bindings exactly once when autodrop is on and never when it is off, and no other handle is touched; own arguments/results and borrows of exported resources release nothing; each exported resource\'s destructor export calls that resource\'s user destructor exactly once and is exported under `<interface>#[dtor]<WIT name>` (single- and multi-word names); drop_own / drop_borrow / new / rep helpers make exactly one built-in call; every generated *_free helper of an interface that is both imported and exported releases all owned memory on both sides.',
+   text='PARTIAL and BOUNDED (level "other"): for string, list<u32>, list<tuple>, a variant with a string case, list<string>, a record with a string and a list field and result<string, u32> parameters and results of one probe world, under three generator configurations (default, --no-sig-flattening, --string-encoding utf16): after the export wrapper, the user function (which frees its arguments with the generated *_free helpers) and the generated post-return, nothing is leaked, nothing is freed twice, nothing is used after free or accessed out of bounds; post-return of the numeric variant cases frees nothing; the arguments of an import are passed without a copy, left untouched and remain the caller\'s to free; a list<string> returned by an import belongs to the caller and the generated free helper releases all of it. Resources (second probe world, default options and --autodrop-borrows yes): a borrow of an imported resource lent to an export - plain, in an option, in a variant whose other case is an integer in the same flat slot - is dropped by the bindings exactly once when autodrop is on and never when it is off, and no other handle is touched; own arguments/results and borrows of exported resources release nothing; each exported resource\'s destructor export calls that resource\'s user destructor exactly once and is exported under `<interface>#[dtor]<WIT name>` (single- and multi-word names); drop_own / drop_borrow / new / rep helpers make exactly one built-in call; every generated *_free helper of an interface that is both imported and exported releases all owned memory on both sides.',
    note='BOUNDED: lengths as C10; handles over all non-zero i32. Two genuine defects were found with this check and repaired (fix: 5f82076 [dtor] export name, fix: c7cd17d missing export-side free helpers; known-findings.txt). Not covered: async, resources inside lists, free helpers of types outside the probes; that the component encoder wires a recognised [dtor] export is wit-component\'s contract (read, not verified).')
 
 NOT_APPLICABLE = {
